@@ -21,7 +21,10 @@ def litApi : EvalApi where
   hasSideEffects e := match e with
     | .nil | .false | .true | .str _ | .num _ | .var _ => false
     | _ => true
-  canReturnMultiple := canReturnMultiple
+  -- conservative on type instantiations (`f<<T>>` of a call is multi-valued in the reference semantics)
+  canReturnMultiple e := match e with
+    | .inst _ _ => true
+    | _ => canReturnMultiple e
 
 def notInst : Expr → Prop
   | .inst _ _ => False
@@ -167,12 +170,18 @@ theorem litApi_sound : EvalSound litApi notInst where
   str e s _ hk N call ρ k env σ σ' vs h := by
     cases e <;> simp [litApi] at hk
     simp [evalE] at h; rw [← h.1, hk]; simp [first]
-  single e hg hm N call ρ k env σ σ' vs h :=
-    canReturnMultiple_sound call ρ k env e hm hg σ σ' vs h
+  single e hg hm N call ρ k env σ σ' vs h := by
+    cases e with
+    | inst x t => exact absurd hg (by simp [notInst])
+    | _ => exact canReturnMultiple_sound call ρ k env _ (by simpa [litApi] using hm) hg σ σ' vs h
 
 theorem litApi_total : EvalTotal litApi where
   decided e b ht N call ρ k env σ σ' vs h := litApi_sound.truthy e b (by cases e <;> simp [EvalApi.isTruthy, litApi, LuaKind.isTruthy] at ht <;> trivial) ht call ρ k env σ σ' vs h
   pureTotal e b ht _ N call ρ k env σ := by
     cases e <;> simp [EvalApi.isTruthy, litApi, LuaKind.isTruthy] at ht <;> (right; simp [evalE])
+  single e hm N call ρ k env σ σ' vs h := by
+    cases e with
+    | inst x t => simp [litApi] at hm
+    | _ => exact canReturnMultiple_sound call ρ k env _ (by simpa [litApi] using hm) (by simp [notInst]) σ σ' vs h
 
 end DarkluaModel.Rules
